@@ -244,6 +244,44 @@ def build_variant(lib, jv, arena, const_keys, string_refs):
     return printing.build_tree(lib, jv)
 
 
+STALE_NAMES = [b"old name", b"0", b"", b"a/b", b"K", b"k"]
+
+
+def build_stale(lib, jv, rnd, keep):
+    """the same value, but array elements (and the root) still carry the name they had as members of some other object
+    (the library never clears it), and scalars are reference nodes made by cJSON_AddItemReferenceTo*; names are drawn
+    independently for the two trees of a pair, so corresponding elements usually carry DIFFERENT left-over names"""
+    def named(p):
+        if rnd.random() < 0.6:
+            tmp = lib.cJSON_CreateObject()
+            lib.cJSON_AddItemToObject(tmp, rnd.choice(STALE_NAMES), p)
+            lib.cJSON_DetachItemViaPointer(tmp, p)
+            lib.cJSON_Delete(tmp)
+        return p
+    t = jv[0]
+    if t == "A":
+        a = lib.cJSON_CreateArray()
+        for ch in jv[1]:
+            c = named(build_stale(lib, ch, rnd, keep))
+            if ch[0] not in "AO" and rnd.random() < 0.4:
+                keep.append(c)
+                lib.cJSON_AddItemReferenceToArray(a, c)
+            else:
+                lib.cJSON_AddItemToArray(a, c)
+        return a
+    if t == "O":
+        o = lib.cJSON_CreateObject()
+        for k, ch in jv[1]:
+            c = build_stale(lib, ch, rnd, keep)
+            if ch[0] not in "AO" and b"\x00" not in k and rnd.random() < 0.3:
+                keep.append(c)
+                lib.cJSON_AddItemReferenceToObject(o, k, c)
+            else:
+                lib.cJSON_AddItemToObject(o, k, c)
+        return o
+    return printing.build_tree(lib, jv)
+
+
 def _containers(jv):
     return [n for n in model.walk_jv(jv) if n[0] in "AO" and n[1]]
 
@@ -258,13 +296,14 @@ class C12(Prop):
             "non-trivial = b is a permutation or single-point mutation of a tree with an object of >= 2 members; distinct by pair hash")
     ASSUMPTIONS = ["number perturbations strictly between 1 and 4 ulp are not generated (razor's edge of the relative tolerance)",
                    "pairs of two distinct non-finite numbers are not generated"]
-    REQUIRED_CLASSES = ["mut:" + m for m in MUTATIONS] + ["expect_equal", "expect_different", "ci_differs_from_cs", "const_keys", "string_refs", "parsed", "deep_tree", "reference_view_checked", "invalid_null_string_checked"]
+    REQUIRED_CLASSES = ["mut:" + m for m in MUTATIONS] + ["expect_equal", "expect_different", "ci_differs_from_cs", "const_keys", "string_refs", "parsed", "deep_tree", "reference_view_checked", "invalid_null_string_checked", "stale_names_and_scalar_references"]
 
     def budget(self, tier):
         return {"workers": 14, "examples": 1500 if tier == "quick" else 30000}
 
     def strategy(self, tier):
-        numbers = st.one_of(gens.finite_doubles(), st.sampled_from([1.0, 0.1, 1e300, 2.5, -3.0, 123456.789]))
+        numbers = st.one_of(gens.finite_doubles(), gens.finite_doubles(), st.sampled_from([1.0, 0.1, 1e300, 2.5, -3.0, 123456.789]), gens.top_doubles(),
+                            st.sampled_from([5e-324, 1e-310, 3e-308, 2.2250738585072014e-308, 1e-300, -1.7976931348623157e308]))
         strings = st.one_of(gens.byte_strings(8), st.sampled_from([b"abc", b"ABC", b"", b"x"]))
         leaves = st.one_of(gens.scalars_built(strings=strings, numbers=numbers), st.sampled_from([b"{}", b"[1]", b"raw"]).map(lambda r: ["R", r]))
         keys = st.one_of(gens.ascii_keys(4), gens.byte_strings(4), st.sampled_from([b"a", b"A", b"key", b"Key", b"k1", b"k2"]),
@@ -277,7 +316,7 @@ class C12(Prop):
             lambda t: ["D", "[", t[0], t[1]])
         tree = st.tuples(gens.chance(60), tree, deep).map(lambda t: t[2] if t[0] else t[1])
         return st.fixed_dictionaries({"a": tree, "other": tree, "mutation": st.sampled_from(MUTATIONS),
-                                      "rseed": st.integers(0, 2 ** 31), "variant": st.integers(0, 5)})
+                                      "rseed": st.integers(0, 2 ** 31), "variant": st.integers(0, 7)})
 
     def reference_views(self, lib, stats, a, rnd):
         """ownership flags must not matter: a reference container that shares the tail of another container's member list
@@ -348,8 +387,12 @@ class C12(Prop):
         stats.cls("mut:" + kind)
         variant = case["variant"]
         arena = Arena(lib)
-        pa = printing.build_tree(lib, a)
+        keep = []
+        pa = printing.build_tree(lib, a) if variant not in (6, 7) else build_stale(lib, a, random.Random(case["rseed"] + 1), keep)
         pb = None
+        if variant in (6, 7) and model.depth_of(b) < 200:
+            pb = build_stale(lib, b, random.Random(case["rseed"] + 2), keep)
+            stats.cls("stale_names_and_scalar_references")
         if variant == 3:
             try:
                 text = model.emit_text(b, rnd)
@@ -437,6 +480,8 @@ class C12(Prop):
         finally:
             lib.cJSON_Delete(pa)
             lib.cJSON_Delete(pb)
+            for k_ in keep:
+                lib.cJSON_Delete(k_)
             arena.close()
         if lib.ledger_live() != 0:
             raise Violation("Compare left allocations behind", key="leak")
